@@ -1,4 +1,4 @@
-\* Batcher q5: retry budget per batch: s1 = send,send; up to 13 failing attempts; Cap 2, MaxRetry 10 (hard-coded by bounded()), <= 13 processor faults, AnyRemainder FALSE, receiver kill FALSE; idle spinning cut at 3 ms. Exhaustive.
+\* Batcher q5: retry budget per batch: s1 = send,send; outcomes ok and retry with a non-empty remainder only (so that exhaustion is the only way to many failures); up to 13 failing attempts; Cap 2, MaxRetry 10 (hard-coded by bounded()), <= 13 processor faults, AnyRemainder FALSE, receiver kill FALSE; idle spinning cut at 3 ms. Exhaustive.
 SPECIFICATION Spec
 CONSTANTS
     SenderOps <- R2_SenderOps
@@ -7,6 +7,8 @@ CONSTANTS
     MaxRetry = 10
     MaxFail = 13
     AnyRemainder = FALSE
+    NonEmptyRem = TRUE
+    OutcomeSet = {"ok", "retry"}
     AllowKill = FALSE
     MaxIdleDelay = 3
     Emit = TRUE
